@@ -253,7 +253,14 @@ func historyCall(r *rng.Rand) string {
 		for i := 0; i < 2; i++ {
 			run.Parse(spec.Build(root, nil), map[string]any{"a": "abc", "b": "x"}, nil)
 		}
-		return "2 x Parse with a PostTransform returning the caller's own *ZogIssue on a catching node (swallowed)"
+		// ... and a custom test of a catching node that files the caller's own issue object (swallowed by the catch)
+		type ab struct{ A, B string }
+		own := z.Struct(z.Schema{"a": z.String().Test(z.Test{Func: func(v any, ctx z.Ctx) { ctx.AddIssue(c07Sentinel) }}).Catch("caught"), "b": z.String()})
+		for i := 0; i < 2; i++ {
+			var d ab
+			own.Parse(map[string]any{"a": "abc", "b": "x"}, &d)
+		}
+		return "2 x Parse with a PostTransform returning, and 2 x with a custom test filing, the caller's own *ZogIssue on a catching nod"
 	}
 	pr := c07RandomProbe(r)
 	keys := []string{"k0", "k1", "k2", "lang", "user"}
